@@ -14,7 +14,8 @@ EXPLANATION = (
     "len + avail_in as the unconsumed rest and maps BufError with space left to DataError; compress_with_flush's result length is "
     "total_out; one-shot drivers top up avail_* from their own remaining counters with min(left, u32::MAX); return_unused_bytes "
     "shape. That the amounts equal the bytes actually moved, and absence of underflow, are not decided. "
-    "COUP/dup-total: inflate() publishes state.total as total_out, so any other inflate-module function that stores a value in total_out stores the same value in state.total (fired on inflateSync: D11, fixed). PAIR/total-compensation: after the Check arm's early `total += writer.len()` every path leaving the arm re-bases out_available to capacity - len.")
+    "COUP/dup-total: inflate() publishes state.total as total_out, so any other inflate-module function that stores a value in total_out stores the same value in state.total (fired on inflateSync: D11, fixed). PAIR/total-compensation: after the Check arm's early `total += writer.len()` every path leaving the arm re-bases out_available to capacity - len. "
+    "PAIR/avoid-buferror: every successful return of deflate() after `avail_out == 0` stored last_flush = -1; four such places as in zlib. SIB/ref-conditions: the elementary conditions and calls of the zlib-ng functions this code was ported from (oracles/condparity.json, frozen from the vendored C sources) keep a counterpart in the paired zlib-rs function.")
 
 CLAIM = dict(
     text="Static co-update rule over MIR field writes: cursor/counter triples move together, by one expression, with the "
